@@ -115,3 +115,89 @@ pub fn mlpg_reference(
     }
     out
 }
+
+/// Linear-time optimality test for long trajectories: the gradient of the log-likelihood of `got` under the same
+/// definition as `mlpg_reference`, frame by frame (the normal equations W'U^-1 W c = W'U^-1 mu hold iff it vanishes;
+/// the matrix is positive definite because every voiced frame has a static observation of finite variance).
+/// Returns (worst |gradient| relative to the sum of the magnitudes of its terms, frame, component), or an error text
+/// when the voicing pattern of `got` is wrong.
+pub fn mlpg_gradient_residual(
+    states: &[(Vec<(f64, f64)>, bool)],
+    durations: &[usize],
+    windows: &[Vec<f64>],
+    vlen: usize,
+    got: &[Vec<f64>],
+) -> Result<(f64, usize, usize), String> {
+    let mut frame_state = Vec::new();
+    for (s, d) in durations.iter().enumerate() {
+        for _ in 0..*d {
+            frame_state.push(s);
+        }
+    }
+    let t_total = frame_state.len();
+    if got.len() != t_total {
+        return Err(format!("{} frames, want {}", got.len(), t_total));
+    }
+    let voiced: Vec<bool> = frame_state.iter().map(|s| states[*s].1).collect();
+    for t in 0..t_total {
+        for k in 0..vlen {
+            if voiced[t] == (got[t][k].to_bits() == NODATA.to_bits()) {
+                return Err(format!("frame {} comp {}: voiced={} but value {}", t, k, voiced[t], got[t][k]));
+            }
+        }
+    }
+    let mut worst = (0.0f64, 0usize, 0usize);
+    let mut t = 0;
+    while t < t_total {
+        if !voiced[t] {
+            t += 1;
+            continue;
+        }
+        let a0 = t;
+        while t < t_total && voiced[t] {
+            t += 1;
+        }
+        let b0 = t;
+        for comp in 0..vlen {
+            let mut grad = vec![0.0f64; b0 - a0];
+            let mut mag = vec![0.0f64; b0 - a0];
+            for f in a0..b0 {
+                let st = &states[frame_state[f]].0;
+                for (wi, w) in windows.iter().enumerate() {
+                    let l = w.len() / 2;
+                    let r = w.len() - l - 1;
+                    if wi != 0 && (f < a0 + l || f + r >= b0) {
+                        continue;
+                    }
+                    let (mean, var) = st[vlen * wi + comp];
+                    let p = precision(var);
+                    let mut o = 0.0;
+                    let mut oabs = 0.0;
+                    for (k, c) in w.iter().enumerate() {
+                        let i = f as isize + k as isize - l as isize;
+                        if i < a0 as isize || i >= b0 as isize {
+                            continue;
+                        }
+                        o += c * got[i as usize][comp];
+                        oabs += (c * got[i as usize][comp]).abs();
+                    }
+                    for (k, c) in w.iter().enumerate() {
+                        let i = f as isize + k as isize - l as isize;
+                        if i < a0 as isize || i >= b0 as isize || *c == 0.0 {
+                            continue;
+                        }
+                        grad[i as usize - a0] += p * c * (o - mean);
+                        mag[i as usize - a0] += p * c.abs() * (oabs + mean.abs());
+                    }
+                }
+            }
+            for i in 0..grad.len() {
+                let rel = grad[i].abs() / mag[i].max(1e-300);
+                if rel > worst.0 || rel.is_nan() {
+                    worst = (if rel.is_nan() { f64::INFINITY } else { rel }, a0 + i, comp);
+                }
+            }
+        }
+    }
+    Ok(worst)
+}
